@@ -568,17 +568,33 @@ pub(crate) fn unique(val: &[Value], _: Kwargs, _: &State) -> Vec<Value> {
     res
 }
 
+/// The entries of a map in the order we iterate on it: sorted by key unless preserve_order is used,
+/// so that the output does not depend on the HashMap instance
+fn ordered_entries(val: &Map) -> Vec<(&Key<'static>, &Value)> {
+    #[allow(unused_mut)]
+    let mut entries: Vec<_> = val.iter().collect();
+    #[cfg(not(feature = "preserve_order"))]
+    entries.sort_by(|a, b| a.0.cmp(b.0));
+    entries
+}
+
 pub(crate) fn values(val: &Map, _: Kwargs, _: &State) -> TeraResult<Vec<Value>> {
-    Ok(val.values().cloned().collect())
+    Ok(ordered_entries(val)
+        .into_iter()
+        .map(|(_, v)| v.clone())
+        .collect())
 }
 
 pub(crate) fn keys(val: &Map, _: Kwargs, _: &State) -> TeraResult<Vec<Value>> {
-    Ok(val.keys().map(|k| k.clone().into()).collect())
+    Ok(ordered_entries(val)
+        .into_iter()
+        .map(|(k, _)| k.clone().into())
+        .collect())
 }
 
 pub(crate) fn pairs(val: &Map, _: Kwargs, _: &State) -> TeraResult<Vec<Value>> {
-    Ok(val
-        .iter()
+    Ok(ordered_entries(val)
+        .into_iter()
         .map(|(k, v)| Value::from(vec![Value::from(k.clone()), v.clone()]))
         .collect())
 }
